@@ -104,11 +104,13 @@ deriving DecidableEq, Repr
     blocks of the chain entries in order, dropping every block that is the leaf
     itself (the `fullchain.pem` shape); `none` = a block does not parse, the whole
     certificate is refused. This is what rustls presents for the certificate. -/
+def keepLink (leaf : Nat) : Link → Option Nat
+  | .cert i => if i = leaf then none else some i
+  | .bad => none
+
 def assembleChain (leaf : Nat) (links : List Link) : Option (List Nat) :=
   if links.any (· == Link.bad) then none
-  else some (leaf :: (links.filterMap fun l => match l with
-    | .cert i => if i = leaf then none else some i
-    | .bad => none))
+  else some (leaf :: links.filterMap (keepLink leaf))
 
 -- ----------------------------------------------------------------- add --
 
